@@ -405,6 +405,11 @@ def execute(case):
                 ntx = len(r.model.txns)
                 # exclusion of the known-finding region (F14) by construction
                 in_known = False
+                if packed and any(x[0] == 'undo' for x in op[2]):
+                    # after a pack the history model no longer predicts which transactions can be undone
+                    # (status p, re-linked back-pointers): pack + undo is C07's subject
+                    out.excluded += 1
+                    continue
                 if any(x[0] == 'undo' for x in op[2]) and case['changes'] == 'fs':
                     r.undo_hits_known_region = False
                     probe_known(r, op)
